@@ -387,7 +387,8 @@ def objstm_value(members, compress, extra=None):
 
 
 def build_file(objs, gens, trailer, handler=None, objstms=None, xref="table", xref_objnum=None, xref_compress=False,
-               encrypt_objnum=None, length_refs=None, order=None, header=b"%PDF-1.7\n%\xe2\xe3\xcf\xd3\n", info=None):
+               encrypt_objnum=None, length_refs=None, order=None, header=b"%PDF-1.7\n%\xe2\xe3\xcf\xd3\n", info=None,
+               xref_narrow=False):
     """Serialise one single-revision file.
 
     objs: {n: value} all indirect objects in plaintext (object streams included as ("S", ...) values whose
@@ -475,7 +476,13 @@ def build_file(objs, gens, trailer, handler=None, objstms=None, xref="table", xr
             data += b"\x02" + struct.pack(">IH", sn, idx)
         else:
             data += b"\x01" + struct.pack(">IH", offs[n], gens.get(n, 0))
-    d = {b"Type": W.N("XRef"), b"Size": max(nums) + 1, b"W": [1, 4, 2], b"Index": index}
+    widths = [1, 4, 2]
+    if xref_narrow and not member_of and not any(gens.get(n, 0) for n in allnums):
+        # fields as narrow as the values allow: the third field (generation, default 0) is left out altogether
+        w2 = 2 if max(offs[n] for n in allnums if n) < 65536 else 3 if len(out) < 2 ** 24 else 4
+        widths = [1, w2, 0]
+        data = bytearray(b"".join(bytes([data[k]]) + data[k + 5 - w2:k + 5] for k in range(0, len(data), 7)))
+    d = {b"Type": W.N("XRef"), b"Size": max(nums) + 1, b"W": widths, b"Index": index}
     d.update(tr)
     payload = bytes(data)
     if info is not None:
